@@ -14,7 +14,7 @@ BASE = dict(
     DEV_ImplicitDot='FALSE', DEV_NoRsetAfterDataReject='FALSE', DEV_ContinueAfterRsetFail='FALSE',
     DEV_LeakOnDialError='FALSE', DEV_QuitFailureLeavesConn='FALSE', DEV_NoDeadlineInDial='FALSE',
     DEV_NoopBeforeDeadline='FALSE', DEV_WindowStaysOpen='FALSE', DEV_FallbackInClear='FALSE',
-    DEV_DialKeepsConnection='FALSE', REDIAL='{FALSE}')
+    DEV_DialKeepsConnection='FALSE', DEV_WindowNeedsDebug='FALSE', REDIAL='{FALSE}', LATEDEBUG='{FALSE}')
 
 
 def cfg(**kw):
@@ -143,6 +143,13 @@ STAGES = {
             ('rawauth-concurrent-close', 'Session', cfg(OP='"RawAuth"', N='1', MAXR='1', BUDGET='1', CAPSETS='{{}}', CLASSES='{"xclose"}',
                                           AUTHTYPES='{"PLAIN-NOENC", "LOGIN-NOENC", "CRAM-MD5", "XOAUTH2", "SCRAM-SHA-1", "SCRAM-SHA-256"}',
                                           AUTHLISTS='{{"PLAIN", "LOGIN", "CRAM-MD5", "XOAUTH2", "SCRAM-SHA-1", "SCRAM-SHA-256"}}', LOGAUTH='BOOLEAN', LOGGERS='{"capture", "json"}')),
+            # another goroutine uses the same smtp.Client (NOOP) after the window was opened; debug logging switched on mid-exchange
+            ('rawauth-concurrent-noop', 'Session', cfg(OP='"RawAuth"', N='1', MAXR='1', BUDGET='1', CAPSETS='{{}}', CLASSES='{"xnoop"}',
+                                          AUTHTYPES='{"PLAIN-NOENC", "LOGIN-NOENC", "CRAM-MD5", "XOAUTH2", "SCRAM-SHA-256"}',
+                                          AUTHLISTS='{{"PLAIN", "LOGIN", "CRAM-MD5", "XOAUTH2", "SCRAM-SHA-1", "SCRAM-SHA-256"}}', LOGAUTH='BOOLEAN', LOGGERS='{"capture", "std"}')),
+            ('rawauth-late-debug', 'Session', cfg(OP='"RawAuth"', N='1', MAXR='1', BUDGET='1', CAPSETS='{{}}', CLASSES='{"p5"}', LATEDEBUG='{TRUE}',
+                                          AUTHTYPES='{"PLAIN-NOENC", "LOGIN-NOENC", "CRAM-MD5", "XOAUTH2", "SCRAM-SHA-1", "SCRAM-SHA-256"}',
+                                          AUTHLISTS='{{"PLAIN", "LOGIN", "CRAM-MD5", "XOAUTH2", "SCRAM-SHA-1", "SCRAM-SHA-256"}}', LOGAUTH='BOOLEAN', LOGGERS='{"capture", "json"}')),
             ('send-after-auth-b1', 'Session', cfg(N='1', MAXR='1', BUDGET='1', CAPSETS='{{}}', CLASSES='{"p5"}',
                                                   AUTHTYPES='{"PLAIN-NOENC", "LOGIN-NOENC", "SCRAM-SHA-256", "XOAUTH2"}',
                                                   AUTHLISTS='{{"PLAIN", "LOGIN", "CRAM-MD5", "XOAUTH2", "SCRAM-SHA-1", "SCRAM-SHA-256", "SCRAM-SHA-1-PLUS", "SCRAM-SHA-256-PLUS"}}', LOGAUTH='BOOLEAN', LOGGERS='{"capture", "std", "json"}')),
@@ -245,6 +252,10 @@ SENSITIVITY = {
                                                        POLICIES='{"mandatory"}', STARTTLSADV='{TRUE}', DEV_DialKeepsConnection='TRUE'), 'NoViolation'),
             ('DEV_FallbackInClear', 'Session', cfg(OP='"Dial"', N='1', MAXR='1', BUDGET='1', CAPSETS='{{}}', CLASSES='{"refuse"}',
                                                    POLICIES='{"implicit"}', FALLBACK='{TRUE}', DEV_FallbackInClear='TRUE'), 'NoViolation')],
+    'C16': [('DEV_WindowStaysOpen', 'Session', cfg(N='1', MAXR='1', BUDGET='0', CAPSETS='{{}}', AUTHTYPES='{"LOGIN-NOENC"}', AUTHLISTS='{{"LOGIN"}}',
+                                                   DEV_WindowStaysOpen='TRUE'), 'NoViolation'),
+            ('DEV_WindowNeedsDebug', 'Session', cfg(OP='"RawAuth"', N='1', MAXR='1', BUDGET='0', CAPSETS='{{}}', LATEDEBUG='{TRUE}',
+                                                    AUTHTYPES='{"LOGIN-NOENC"}', AUTHLISTS='{{"LOGIN"}}', DEV_WindowNeedsDebug='TRUE'), 'NoViolation')],
     'C19': [('DEV_LeakOnDialError', 'Session', cfg(OP='"Dial"', N='1', MAXR='1', BUDGET='1', CAPSETS='{{}}', DEV_LeakOnDialError='TRUE'), 'NoViolation'),
             ('DEV_QuitFailureLeavesConn', 'Session', cfg(OP='"DialAndSend"', N='1', MAXR='1', BUDGET='1', CAPSETS='{{}}',
                                                          DEV_QuitFailureLeavesConn='TRUE'), 'NoViolation')],
